@@ -65,6 +65,9 @@ def hint_combos(lk, rk):
     return out
 
 
+SUBSETS = [True, "left_empty", True, "right_empty"]     # (both lists empty leaves a destination without columns: nothing to observe)
+
+
 def mk(lk, rk, how, hints, cs, n, compound=False, subset=False, kdtype="int32", mal=None, extra=None):
     c = {"op": "merge", "lk": lk, "rk": rk, "how": how, "hints": hints, "cs": cs, "compound": compound,
          "subset": subset, "kdtype": kdtype, "_n": n}
@@ -155,7 +158,8 @@ def gen_cases(tier, rng):
                     ordered = hints[0] and hints[2] and how != "outer"
                     for cs in ([1, 2, 3, 1 << 20] if ordered else [1 << 20]):
                         n += 1
-                        allc.append(mk(lk, rk, how, hints, cs, n, compound=(n % 13 == 0), subset=(n % 7 == 0),
+                        allc.append(mk(lk, rk, how, hints, cs, n, compound=(n % 13 == 0),
+                                       subset=(SUBSETS[(n // 7) % len(SUBSETS)] if n % 7 == 0 else False),
                                        kdtype="int32" if n % 3 else "S2"))
     ordered = [c for c in allc if is_ordered_path(c)]
     other = [c for c in allc if not is_ordered_path(c)]
@@ -176,7 +180,13 @@ def gen_cases(tier, rng):
         hints = rng.choice(hint_combos(lk, rk))
         n += 1
         cases.append(mk(lk, rk, how, hints, rng.choice([1, 2, 3, 5, 8, 1 << 20]), n, compound=False,
-                        subset=rng.random() < 0.2))
+                        subset=rng.choice(SUBSETS) if rng.random() < 0.25 else False))
+    # explicitly empty field lists for every mode, with and without the ordered hints (always part of the run)
+    for how in HOWS:
+        for hints in ([None, None, None, None], [True, None, True, None]):
+            for sub in ("left_empty", "right_empty"):
+                n += 1
+                cases.append(mk([0, 1, 1, 3], [1, 2, 3], how, hints, 2, n, subset=sub))
     return cases
 
 
@@ -237,7 +247,14 @@ def fields_of(case):
         rf.insert(1, "k2")
     if case.get("extra"):
         (lf if case["extra"][0] == "l" else rf).append(case["extra"][1])
-    if case.get("subset"):
+    sub = case.get("subset")
+    if sub == "left_empty":              # `left_fields=[]`: join NO field of the left frame (not the same as None = all of them)
+        return lf, rf, [], None
+    if sub == "right_empty":
+        return lf, rf, None, []
+    if sub == "both_empty":
+        return lf, rf, [], []
+    if sub:
         return lf, rf, ["num", "s", "lonly"], ["num", "f", "ronly"]
     return lf, rf, None, None
 
